@@ -34,6 +34,10 @@ type Step struct {
 type Seq struct {
 	First  Step `json:"first"`
 	Second Step `json:"second"`
+	// Overlap: the first stream is still open (partly read) while the second
+	// Decrypt runs and is read to its end afterwards; the FIRST stream is then
+	// judged too: what it yields in all must obey the oracle for its document.
+	Overlap bool `json:"first_read_to_its_end_afterwards,omitempty"`
 }
 
 var slotCounter atomic.Uint32
@@ -99,12 +103,25 @@ func runSeq(c *Case) verdict {
 		return verdict{}
 	}
 	sd := newSlotDocs(c.Cipher, c.Len)
-	_, _, _, rest, ok := runStep(&c.Seq.First, sd)
+	mut1, out1, err1, rest, ok := runStep(&c.Seq.First, sd)
 	if !ok {
 		return verdict{}
 	}
 	mutated, outB, errB, _, _ := runStep(&c.Seq.Second, sd)
-	if rest != nil {
+	if rest != nil && c.Seq.Overlap {
+		more, err := (&encenv.Consumer{}).ReadAll(rest, c.Len)
+		out1, err1 = append(out1, more...), err
+		base1 := sd.own
+		if c.Seq.First.Base == "attacker" {
+			base1 = sd.att
+		}
+		j1 := &Case{Cipher: c.Cipher, Len: c.Len, Muts: c.Seq.First.Muts, FailAt: -1}
+		if v1 := judge(j1, base1, mut1, base1.p, out1, err1); v1.class != "" {
+			v1.key = "open-stream-disturbed-by-a-later-decrypt"
+			v1.msg = "the FIRST stream, partly read before the second Decrypt and read to its end after it: " + v1.msg
+			return v1
+		}
+	} else if rest != nil {
 		io.Copy(io.Discard, rest) // let the abandoned goroutine finish
 	}
 	jc := &Case{Cipher: c.Cipher, Len: c.Len, Muts: c.Seq.Second.Muts, FailAt: -1}
@@ -171,6 +188,17 @@ func enumSequences() []*Case {
 			for _, f := range firsts {
 				for _, s2 := range seconds {
 					out = append(out, &Case{Cipher: cph, Len: n, FailAt: -1, Seq: &Seq{First: f, Second: s2}})
+				}
+			}
+			// the first stream stays open across the second Decrypt
+			for _, base := range []string{"own", "attacker"} {
+				for _, rd := range []string{"none", "1", "100", "65536", "65537"} {
+					fs := []Step{{Base: base, Read: rd}, {Base: base, Read: rd, Muts: []Mut{{Op: "flip", A: l.segs[len(l.segs)-1][0], B: 0, Where: "segment-body"}}}}
+					for _, f := range fs {
+						for _, s2 := range seconds {
+							out = append(out, &Case{Cipher: cph, Len: n, FailAt: -1, Seq: &Seq{First: f, Second: s2, Overlap: true}})
+						}
+					}
 				}
 			}
 		}
